@@ -9,7 +9,7 @@ MANIFEST = dict(
          "io.Reader that records requests/consumption/allocation; a boundary grid at the real limits (63/64, 16383/16384, 2048/2049, "
          "4096/4097, 2^30, 2^62-1; widths 1/2/4/8), seeded random frames and the output of the real writers are read back the same way; "
          "end to end, real client.TCP calls (with and without fast-open) cross a real QUIC connection to a real server whose recording outbound "
-         "observes the parsed address and the first payload bytes behind the frame (and the client the status/message and first reply bytes); "
+         "observes the parsed address and the first payload bytes behind the frame (and the client the status/message and first reply bytes), and a raw HTTP/3 peer of the harness' own making sends request frames with the frame type and every length field in every varint width, any padding, cut into arbitrary writes; "
          "every real call is validated by TLC against the same monitor.",
     note="Trusted: TLC; the harness' scripted reader accounting (bytes served, furthest offset requested), runtime.MemStats.TotalAlloc, "
          "and for tapes > 600 bytes the harness' comparison of the returned string with the tape slice whose offsets the monitor verifies "
@@ -23,7 +23,7 @@ def sig(e):
     if e["ev"] == "Written":
         return "Written:%s,inLen=%s" % (e["kind"], e["inLen"])
     if e["ev"] == "E2E":
-        return "E2E:addrLen=%s,msgLen=%s,fast=%s" % (e["addrLen"], e["msgLen"], e["fast"])
+        return "E2E:addrLen=%s,msgLen=%s,fast=%s,w=%s" % (e["addrLen"], e["msgLen"], e["fast"], e.get("w"))
     return e["ev"]
 
 
@@ -34,7 +34,7 @@ def distinct(e):
     if e["ev"] == "Written":
         return ("W", e["kind"], e["inLen"], e["tapeLen"])
     if e["ev"] == "E2E":
-        return ("E", e["fast"], e["addrLen"], e["msgLen"])
+        return ("E", e["fast"], e["addrLen"], e["msgLen"], tuple(e.get("w") or ()), e.get("padLen"))
     return None
 
 
